@@ -20,7 +20,7 @@ use vcore::{Report, Tier, Violation};
 
 /// A call is a *hang candidate* in a batch when the child burnt this much CPU, or
 /// this much wall time, without leaving the call (normal calls take 10 us .. 20 ms).
-const BATCH_LIMITS: Limits = Limits { cpu_ms: 200, wall: Duration::from_secs(5) };
+const BATCH_LIMITS: Limits = Limits { cpu_ms: 150, wall: Duration::from_secs(5) };
 /// Verdict "timeout": re-run alone, one call did not return after this much CPU or wall time.
 const SOLO_LIMITS: Limits = Limits { cpu_ms: 3_000, wall: Duration::from_secs(30) };
 const STARTUP_DEADLINE: Duration = Duration::from_secs(120);
@@ -29,7 +29,7 @@ const STARTUP_DEADLINE: Duration = Duration::from_secs(120);
 const FULL_CONFIRMATIONS: u32 = 2;
 const POLL: Duration = Duration::from_millis(20);
 /// Limits used for parser/translator/binder probes of tiny strings once the same (language, stage) hang is confirmed.
-const FAST_LIMITS: Limits = Limits { cpu_ms: 60, wall: Duration::from_secs(5) };
+const FAST_LIMITS: Limits = Limits { cpu_ms: 40, wall: Duration::from_secs(5) };
 const SMALL_FAMILIES: [&str; 3] = ["tokens", "mutant", "edge"];
 /// "small input" for the purposes of the time/memory clause of the statement.
 const SMALL_INPUT_BYTES: usize = 4096;
@@ -64,7 +64,8 @@ fn main() {
         let file = argv.get(1).cloned().unwrap_or_default();
         let only_fe0 = argv.iter().any(|a| a == "--only-fe0");
         let skip_fe = argv.iter().position(|a| a == "--skip-fe").and_then(|i| argv.get(i + 1)).and_then(|s| s.parse().ok()).unwrap_or(0);
-        std::process::exit(worker::solo_main(&file, worker::SoloOpts { only_fe0, skip_fe }));
+        let reduced = argv.iter().any(|a| a == "--reduced");
+        std::process::exit(worker::solo_main(&file, worker::SoloOpts { reduced, only_fe0, skip_fe }));
     }
     std::process::exit(run(vcheck::entry()));
 }
@@ -387,6 +388,10 @@ fn scratch() -> std::path::PathBuf {
 static CASE_SEQ: AtomicUsize = AtomicUsize::new(0);
 
 fn solo(item: &inputs::Item, fe0_only_from_start: bool) -> SoloResult {
+    solo_x(item, fe0_only_from_start, false)
+}
+
+fn solo_x(item: &inputs::Item, fe0_only_from_start: bool, reduced: bool) -> SoloResult {
     let file = scratch().join(format!("case-{}.json", CASE_SEQ.fetch_add(1, Ordering::Relaxed)));
     std::fs::write(&file, json!({"lang": item.lang.name(), "query": item.query}).to_string()).unwrap_or_else(|e| vcore::machinery_failure(&format!("case file: {e}")));
     let mut res = SoloResult { large_slow: 0, hang_stages: vec![], violations: vec![], deaths: 0, timeouts: 0, child_runs: 0, summary: None };
@@ -398,6 +403,9 @@ fn solo(item: &inputs::Item, fe0_only_from_start: bool) -> SoloResult {
         let mut args = vec!["--solo".to_string(), file.display().to_string()];
         if only_fe0 {
             args.push("--only-fe0".into());
+        }
+        if reduced {
+            args.push("--reduced".into());
         }
         if skip > 0 {
             args.push("--skip-fe".into());
@@ -632,7 +640,7 @@ fn process_chunk(space: &Space, tier: Tier, lo: usize, hi: usize) -> Shard {
                     st.timeout_strings += 1;
                 } else {
                     // string k is the suspect: re-run it alone, call by call
-                    let sr = solo(&item, false);
+                    let sr = solo_x(&item, false, item.family == "ladder" && tier == Tier::Quick);
                     for h in &sr.hang_stages {
                         note_confirmed_hang(item.lang, h);
                     }
@@ -992,7 +1000,7 @@ fn run(args: vcore::Args) -> i32 {
     rep.set("hang_candidates_recorded_without_solo_rerun", json!(fast_path_hangs));
     rep.assumptions.push("A panic is observed through catch_unwind in the child; the C binding (crates/bindings/c) forwards to the same entry points without an unwind guard and is covered by implication only.".into());
     rep.assumptions.push("Stack-overflow thresholds are those of this build profile (opt-level 2, debug assertions, overflow checks) on an 8 MiB thread stack; other profiles shift the numbers, not the existence of unbounded recursion.".into());
-    rep.assumptions.push("A timeout verdict means: re-run alone, one call consumed 3 s of CPU (or 30 s wall) without returning; CPU time, not wall time, is the primary clock so machine load cannot produce it. Exception, stated per violation: for strings of the families tokens/mutant/edge (<= ~300 bytes) a parser/translator/binder call that burnt 60 ms CPU (normal: microseconds) is recorded without the 3 s re-run once two hangs of the same language+stage were confirmed in full.".into());
+    rep.assumptions.push("A timeout verdict means: re-run alone, one call consumed 3 s of CPU (or 30 s wall) without returning; CPU time, not wall time, is the primary clock so machine load cannot produce it. Exception, stated per violation: for strings of the families tokens/mutant/edge (<= ~300 bytes) a parser/translator/binder call that burnt 40 ms CPU (normal: microseconds) is recorded without the 3 s re-run once two hangs of the same language+stage were confirmed in full.".into());
     // One representative per panic signature is re-run alone (fresh databases for every call) so that every
     // replay file reproduces by construction; batch workers reuse a database while its contents are unchanged.
     let mut by_sig: BTreeMap<String, Vec<usize>> = BTreeMap::new();
@@ -1039,6 +1047,10 @@ fn run(args: vcore::Args) -> i32 {
     rep.set("panic_signatures_confirmed_alone", json!(groups.len() as u64 - unconfirmed));
     rep.set("panic_signatures_not_reproduced_alone", json!(unconfirmed));
     rep.set("occurrences_per_signature", json!(sig_counts));
+    rep.assumptions.push(format!("Time is judged on small input only (the statement's words): a call that does not return is a violation when the string has at most {SMALL_INPUT_BYTES} bytes; longer strings that exceed the CPU limit are listed under slow_large_inputs_not_judged. Crashes (stack overflow, abort, allocation failure under the 2 GiB address-space cap) are violations at every length."));
+    rep.assumptions.push("Quick tier: a nesting ladder (depths 1,2,4,..) stops at its first crash or hang, runs two front-end calls per string (empty db without parameter map, G0 with an empty map) and mutates the first 30 corpus queries per language; thorough runs every depth to 2^14 with all four call variants, bisects each crash threshold and mutates the whole corpus.".into());
+    rep.assumptions.push("Parameter maps: a string that mentions a parameter ('$') is executed with all 17 map classes on both databases; for other strings the content of the map cannot be consulted (processor.rs substitute_params looks values up by name only), so they are executed without a map and with an empty map.".into());
+    rep.assumptions.push("A batch worker keeps a database across calls only while a full dump of its contents (nodes, edges, triples, catalog counts) is unchanged; every replay and every confirmation run builds fresh databases for each call.".into());
     if filtered {
         rep.exhaustive = false;
     }
